@@ -12,7 +12,7 @@
     diagonal (`reg`; since the repair of `max_abs_in_column` — it now starts from `max_index =
     start_row` — this flag is always `true`: `maxAbsInColumn_ge`, `gaussT_regular`).
     `gaussT_fst`: forgetting the trace gives `gaussWithPivot` (any scalar type).
-  * (S) `partialPivot_struct`, `elimRow_struct`, `elimLoopT_struct`, `gaussStepT_struct`, `forM'_congr`,
+  * (S) `partialPivot_struct`, `elimRow_struct`, `elimLoopT_struct`, `gaussStepT_struct`, `forM'_congr_gr`,
     `backsolve_congr_upper` (back substitution never reads below the diagonal).
   * (F) `maxAbsInColumn_fl`, `aug`, `gW`, `gElimLoop_fl`, `GInvF`, `gaussStepT_fl`, `gaussT_fl`: the
     invariant of the elimination — the row relation `LURowF` of LURounding.lean for the AUGMENTED
@@ -346,7 +346,7 @@ theorem foldlM_congr_mem {σ : Type} (f g : σ → Nat → Res σ) :
     | ok s1 => exact foldlM_congr_mem f g l s1 (fun j hj => h j (List.mem_cons_of_mem _ hj))
 
 /-- two loop bodies that agree on the index range give the same loop -/
-theorem forM'_congr {σ : Type} (f g : σ → Nat → Res σ) (lo hi : Nat)
+theorem forM'_congr_gr {σ : Type} (f g : σ → Nat → Res σ) (lo hi : Nat)
     (h : ∀ i, lo ≤ i → i < hi → ∀ s, f s i = g s i) (s : σ) :
     forM' lo hi s f = forM' lo hi s g := by
   unfold forM'
@@ -390,7 +390,7 @@ theorem backsolve_congr_upper {m m' : Mat K} (hr : m'.rows = m.rows)
     have hb : ∀ y : Array K, forM' 2 (m.rows + 1) y (backBody m')
         = forM' 2 (m.rows + 1) y (backBody m) := by
       intro y
-      apply forM'_congr
+      apply forM'_congr_gr
       intro nn h1 h2 z
       unfold backBody
       rw [hr]
@@ -408,7 +408,7 @@ theorem backsolve_congr_upper {m m' : Mat K} (hr : m'.rows = m.rows)
             let xk ← aget x (m.rows - nn)
             let kj ← m.get (m.rows - nn) j
             aset x (m.rows - nn) (xk - kj * xj)) := by
-        apply forM'_congr
+        apply forM'_congr_gr
         intro j hj1 hj2 w
         simp only [hg (m.rows - nn) j (by omega) hj2]
       simp only [bind, Except.bind] at hin
